@@ -17,17 +17,21 @@ import (
 	"os/exec"
 	"runtime"
 	"runtime/debug"
-	"runtime/pprof"
 	"strconv"
 	"strings"
 	"sync"
 	"syscall"
+	"time"
 
 	"verif/engine/ev"
 	rw "verif/ref/refwire"
 )
 
 const workerAddressSpace = 12 << 30 // RLIMIT_AS of a worker
+
+// a single decode call that has not returned after this long is treated like a
+// crash (the worker is killed, the case confirmed in fresh processes)
+const stuckAfter = 3 * time.Minute
 
 type decStat struct {
 	Cases         int64   `json:"cases"`
@@ -73,6 +77,13 @@ func limitAddressSpace() {
 			syscall.Setrlimit(syscall.RLIMIT_AS, &lim)
 		}
 	}
+}
+
+func selfExe() string {
+	if p, err := os.Executable(); err == nil {
+		return p
+	}
+	return os.Args[0]
 }
 
 func kindsOf(fs []finding) string {
@@ -149,11 +160,6 @@ func workerMain(spec, out string, full bool) {
 	kw := bufio.NewWriterSize(kf, 1<<20)
 
 	warmUp()
-	if pf := os.Getenv("C08_WPROF"); pf != "" {
-		f, _ := os.Create(pf)
-		pprof.StartCPUProfile(f)
-		defer pprof.StopCPUProfile()
-	}
 	res := &workerResult{PerDec: map[string]*decStat{}}
 	groups := hostileGroups(full)
 	violPerKind := map[string]int{}
@@ -233,7 +239,6 @@ func workerMain(spec, out string, full bool) {
 	kw.Flush()
 	kf.Close()
 	res.Done = true
-	pprof.StopCPUProfile()
 	b, _ := json.Marshal(res)
 	if err := os.WriteFile(out+".json", b, 0o644); err != nil {
 		fmt.Fprintln(os.Stderr, "worker: result:", err)
@@ -277,11 +282,24 @@ func runSingle(rp bReplay, tmp string, tag string) (kinds string, what []string,
 	os.Remove(out)
 	b, _ := json.Marshal(rp)
 	os.WriteFile(spec, b, 0o644)
-	cmd := exec.Command(os.Args[0])
+	cmd := exec.Command(selfExe())
 	cmd.Env = append(os.Environ(), "C08_SINGLE="+spec, "C08_OUT="+out)
 	var eb strings.Builder
 	cmd.Stderr = &tailWriter{b: &eb}
-	cmd.Run()
+	if err := cmd.Start(); err != nil {
+		return "", nil, true, "cannot start: " + err.Error()
+	}
+	done := make(chan struct{})
+	go func() {
+		select {
+		case <-done:
+		case <-time.After(stuckAfter):
+			eb.WriteString("killed: no result after " + stuckAfter.String() + " (decoder does not terminate)\n")
+			cmd.Process.Kill()
+		}
+	}()
+	cmd.Wait()
+	close(done)
 	ob, err := os.ReadFile(out)
 	if err != nil {
 		return "", nil, true, eb.String()
@@ -330,11 +348,40 @@ func runWorkers(r *ev.Run, full bool, nWorkers int, tmp string) map[string]*decS
 			crashes := 0
 			for {
 				os.Remove(out + ".json")
-				cmd := exec.Command(os.Args[0], tier)
+				cmd := exec.Command(selfExe(), tier)
 				cmd.Env = append(os.Environ(), fmt.Sprintf("C08_WORKER=%d/%d", w, nWorkers), "C08_OUT="+out, "C08_RESUME="+resume, "GODEBUG=madvdontneed=0")
 				var eb strings.Builder
 				cmd.Stderr = &tailWriter{b: &eb}
-				runErr := cmd.Run()
+				if err := cmd.Start(); err != nil {
+					r.Broken("cannot start worker %d: %v", w, err)
+				}
+				done := make(chan struct{})
+				go func() { // watchdog: the same case in flight for too long
+					var last [12]byte
+					since := time.Now()
+					for {
+						select {
+						case <-done:
+							return
+						case <-time.After(5 * time.Second):
+						}
+						mb, err := os.ReadFile(out + ".marker")
+						if err != nil || len(mb) < 12 {
+							continue
+						}
+						var cur [12]byte
+						copy(cur[:], mb)
+						if cur != last {
+							last, since = cur, time.Now()
+						} else if cur[8] == 1 && time.Since(since) > stuckAfter {
+							eb.WriteString("killed: one decode call did not return within " + stuckAfter.String() + "\n")
+							cmd.Process.Kill()
+							return
+						}
+					}
+				}()
+				runErr := cmd.Wait()
+				close(done)
 				jb, err := os.ReadFile(out + ".json")
 				var res workerResult
 				if err == nil && json.Unmarshal(jb, &res) == nil && res.Done {
